@@ -278,7 +278,7 @@ func init() {
 	// ---------------------------------------------------------------- C13
 	register(&checkSpec{
 		ID:   "C13",
-		Rule: "source = concrete context P (48 contexts: file, expression and class-file entry points; declarations, statements, literals, comprehensions, for-phrases, lambdas, string interpolation, tpl literals, index/slice forms) around a window of <= N symbolic ASCII bytes, ParseComments/AllErrors symbolic; the real parser (all of parser.go/parser_gop.go, scanner, go/token, go/scanner.ErrorList) runs; obligations: no escaping panic, instruction budget, nil error => no Bad node, error list sorted and inside the file",
+		Rule: "source = concrete context P (70 contexts: file, expression and class-file entry points; declarations, statements, literals, comprehensions, for-phrases, lambdas, string interpolation, tpl literals, index/slice forms) around a window of <= N symbolic ASCII bytes, ParseComments/AllErrors symbolic; the real parser (all of parser.go/parser_gop.go, scanner, go/token, go/scanner.ErrorList) runs; obligations: no escaping panic, instruction budget, nil error => no Bad node, error list sorted and inside the file",
 		Assumptions: []string{
 			"bound: windows of <= N ASCII bytes inside the listed contexts; anything needing more adjacent unconstrained bytes is outside the claim",
 			"instruction budget 3000000 per path (about 30x the cost of the longest terminating path, see evidence): exceeding it is reported as non-termination",
@@ -286,7 +286,7 @@ func init() {
 		},
 		Harnesses: []harnessSpec{
 			{Name: "VxC13", Pkg: "github.com/goplus/xgo/parser", Files: []string{"c13/c13.go"},
-				Quick: map[string]int{"N": 2}, Thorough: map[string]int{"N": 3}, Variants: c15Variants(48), MaxSteps: 3_000_000, BudgetViolation: true, ReplayTimeout: 20 * time.Second},
+				Quick: map[string]int{"N": 2}, Thorough: map[string]int{"N": 3}, Variants: c15Variants(70), MaxSteps: 3_000_000, BudgetViolation: true, ReplayTimeout: 20 * time.Second},
 		},
 	})
 
@@ -294,7 +294,7 @@ func init() {
 	spanFiles := []string{"c13/c13.go", "c17/spans.go", "gen:astkinds:ast", "gen:corpus:parser/_testdata/*/*.xgo;parser/_testdata/*/*.gox;parser/_testdata/*/*.gop:80:3000"}
 	register(&checkSpec{
 		ID:   "C17",
-		Rule: "trees the real parser returns without errors for (a) the 48 C13 contexts around a window of <= N symbolic ASCII bytes and (b) the repository's parser test data (concrete corpus, embedded at check time); per node: valid span, Pos at the first byte and End just after the last byte of a token of the real scanner's stream, children inside the parent, siblings in source order without overlap; per expression node: re-parsing its source slice with ParseExprFrom yields the same kinds and relative spans",
+		Rule: "trees the real parser returns without errors for (a) the 70 C13 contexts around a window of <= N symbolic ASCII bytes and (b) the repository's parser test data (concrete corpus, embedded at check time); per node: valid span, Pos at the first byte and End just after the last byte of a token of the real scanner's stream, children inside the parent, siblings in source order without overlap; per expression node: re-parsing its source slice with ParseExprFrom yields the same kinds and relative spans",
 		Assumptions: []string{
 			"children are enumerated by vxChildren, generated at check time from the struct definitions of the current ast package (plus the Node values in `any`-typed extras), not by ast.Walk",
 			"oracle conventions (go/ast heritage and synthesized nodes): comment groups are outside their owner's span; FuncDecl.Type.Pos() is the func keyword; the package name of a file without package clause, the header and braces of the shadow entry function and nodes without position (static-method receivers) are synthesized and skipped; expressions inside string / domain-text literals are not tokens of the file scan; key-value pairs, ellipses, for-phrases, lambdas, ranges, command-style calls and operator names are not expressions on their own and are not re-parsed",
@@ -304,12 +304,12 @@ func init() {
 		Harnesses: []harnessSpec{
 			{Name: "VxC17Corpus", Pkg: "github.com/goplus/xgo/parser", Files: spanFiles, Quick: map[string]int{"N": 0, "P": 0, "REPARSE": 40, "NOCR": 1}, MaxSteps: 60_000_000},
 			{Name: "VxC17", Pkg: "github.com/goplus/xgo/parser", Files: spanFiles,
-				Quick: map[string]int{"N": 2, "REPARSE": 6, "NOCR": 1}, Thorough: map[string]int{"N": 3, "REPARSE": 6, "NOCR": 1}, Variants: c15Variants(48), MaxSteps: 6_000_000},
+				Quick: map[string]int{"N": 2, "REPARSE": 6, "NOCR": 1}, Thorough: map[string]int{"N": 3, "REPARSE": 6, "NOCR": 1}, Variants: c15Variants(70), MaxSteps: 6_000_000},
 		},
 	})
 	register(&checkSpec{
 		ID:   "C18",
-		Rule: "same trees as C17 (48 contexts around a symbolic window, both comment modes; and the concrete corpus): ast.Walk's visit sequence is recorded and compared with the children enumerated by vxChildren (generated from the current struct definitions): every child exactly once, nothing else, parents before children, Visit(nil) after each node's children, siblings in source order; ast.Inspect visits the same number of nodes; no panic for any node kind the parser produces",
+		Rule: "same trees as C17 (70 contexts around a symbolic window, both comment modes; and the concrete corpus): ast.Walk's visit sequence is recorded and compared with the children enumerated by vxChildren (generated from the current struct definitions): every child exactly once, nothing else, parents before children, Visit(nil) after each node's children, siblings in source order; ast.Inspect visits the same number of nodes; no panic for any node kind the parser produces",
 		Assumptions: []string{
 			"only trees the parser produces within the bound (synthesized trees from the compiler front end are not generated)",
 			"oracle conventions: the synthesized package name of a file without package clause and the synthesized header of the shadow entry function are not visited; FuncDecl.Type is visited after Recv and Name although its Pos() is the func keyword; comment groups are exempt from the order check",
@@ -317,7 +317,7 @@ func init() {
 		Harnesses: []harnessSpec{
 			{Name: "VxC18Corpus", Pkg: "github.com/goplus/xgo/parser", Files: spanFiles, Quick: map[string]int{"N": 0, "P": 0, "REPARSE": 0, "NOCR": 0}, MaxSteps: 60_000_000},
 			{Name: "VxC18", Pkg: "github.com/goplus/xgo/parser", Files: spanFiles,
-				Quick: map[string]int{"N": 2, "REPARSE": 0, "NOCR": 0}, Thorough: map[string]int{"N": 3, "REPARSE": 0, "NOCR": 0}, Variants: c15Variants(48), MaxSteps: 6_000_000},
+				Quick: map[string]int{"N": 2, "REPARSE": 0, "NOCR": 0}, Thorough: map[string]int{"N": 3, "REPARSE": 0, "NOCR": 0}, Variants: c15Variants(70), MaxSteps: 6_000_000},
 		},
 	})
 
@@ -508,17 +508,17 @@ func init() {
 	register(&checkSpec{
 		ID:    "C25",
 		Level: "translation_validation",
-		Rule:  "programs = the 21 functions and the main function of harness/tv/c25/style.gostyle (fmt.Println/Printf/Print, Sprint/Sprintf/Sprintln, Errorf, Fprint* to a strings.Builder, package functions and methods in lower-case call style, function literals as arguments: one/two parameters and results, statement body, named result, unnamed parameter; local variables, block-local variables and parameters named fmt; local names printf, echo, errorf, sprint next to the fmt calls they would capture); the text is converted by the real x/format.GopstyleSource and compiled by the real compiler, and - unchanged - taken as the Go reference; inputs = ints, a string of <= 2 symbolic printable bytes, a slice of <= 3 ints; results and standard output of both versions are compared by symbolic execution",
+		Rule:  "programs = the 24 functions and the main function of harness/tv/c25/*.gostyle (function literals that cannot become lambda expressions: bare return, variadic; fmt call in the post statement of a for loop as the only use of fmt; fmt.Println/Printf/Print, Sprint/Sprintf/Sprintln, Errorf, Fprint* to a strings.Builder, package functions and methods in lower-case call style, function literals as arguments: one/two parameters and results, statement body, named result, unnamed parameter; local variables, block-local variables and parameters named fmt; local names printf, echo, errorf, sprint next to the fmt calls they would capture); the text is converted by the real x/format.GopstyleSource and compiled by the real compiler, and - unchanged - taken as the Go reference; inputs = ints, a string of <= 2 symbolic printable bytes, a slice of <= 3 ints; results and standard output of both versions are compared by symbolic execution",
 		Assumptions: []string{
 			"translation validation of the listed Go functions, not of every Go program; standard output is observed at fmt.Print/Printf/Println (the engine's fmt model: %d %s %v %q %x and the Sprint spacing rules); the builtin println and os.Stdout writes are not used by the templates",
 			"bound: |ints| <= 50, strings <= 2 bytes, slices <= 3 elements",
 		},
 		Prepare: func(tier string) error { _, err := prepareTV("C25"); return err },
-		Extra:   func(tier string, ev map[string]any) []Violation { ev["programs"] = 22; return nil },
+		Extra:   func(tier string, ev map[string]any) []Violation { ev["programs"] = 25; return nil },
 		Harnesses: []harnessSpec{
 			{Name: "VxC25", ExtDir: tvDir("C25"), Quick: map[string]int{}, Variants: func() []map[string]int {
 				var v []map[string]int
-				for fn := 0; fn <= 10; fn++ {
+				for fn := 0; fn <= 11; fn++ {
 					v = append(v, map[string]int{"FN": fn})
 				}
 				return v
@@ -536,7 +536,7 @@ func init() {
 			"bound: |ints| <= 40, loop bounds <= 5, strings <= 2 bytes",
 		},
 		Prepare: func(tier string) error { _, err := prepareTV("C01"); return err },
-		Extra:   func(tier string, ev map[string]any) []Violation { ev["programs"] = 22; return nil },
+		Extra:   func(tier string, ev map[string]any) []Violation { ev["programs"] = 25; return nil },
 		Harnesses: []harnessSpec{
 			{Name: "VxC01", ExtDir: tvDir("C01"), Quick: map[string]int{"KF_INITORDER": 0}, Variants: func() []map[string]int {
 				var v []map[string]int
